@@ -53,7 +53,6 @@ type mwFacts struct {
 	csCount   int
 	mwElem    types.Object
 	mwErr     types.Object
-	mwRange   *ast.RangeStmt
 	nextCalls []*ast.CallExpr
 	params    map[types.Object]bool
 }
@@ -251,16 +250,58 @@ func checkScopeMiddleware(w *World, r *Report, m string, p *packages.Package) {
 		rcv, name, ok := methodCall(c)
 		return ok && name == "Context" && objOf(info, rcv) == f.scope
 	}
-	// middleware loop
-	ast.Inspect(body, func(x ast.Node) bool {
-		if rs, ok := x.(*ast.RangeStmt); ok && isFieldNamed(info, rs.X, "Middlewares") && rs.Value != nil {
-			f.mwRange, f.mwElem = rs, objOf(info, rs.Value)
+	// middleware loop: in the request function itself, or in a private function it calls
+	var mwLoop *iterLoop
+	var mwLoopInfo *types.Info = info
+	var mwHelper *FuncInfo
+	var mwHelperCall *ast.CallExpr
+	isMiddlewaresColl := func(inf *types.Info, fi2 *FuncInfo, il *iterLoop) bool {
+		if isFieldNamed(inf, il.Coll, "Middlewares") {
+			return true
 		}
-		return true
-	})
+		if il.CollObj != nil && fi2 != nil {
+			// local copy: mws := cfg.Middlewares
+			okCopy := false
+			ast.Inspect(fi2.Decl.Body, func(y ast.Node) bool {
+				if as, ok := y.(*ast.AssignStmt); ok && len(as.Lhs) == 1 && len(as.Rhs) == 1 && objOf(inf, as.Lhs[0]) == il.CollObj && isFieldNamed(inf, as.Rhs[0], "Middlewares") {
+					okCopy = true
+				}
+				return true
+			})
+			return okCopy
+		}
+		return false
+	}
+	for _, il := range iterLoopsIn(info, body) {
+		if isMiddlewaresColl(info, fi, il) {
+			mwLoop = il
+		}
+	}
+	if mwLoop == nil {
+		for _, c := range callsIn(body, false) {
+			cal := callee(info, c)
+			if cal == nil || cal.Exported() {
+				continue
+			}
+			t := w.Decls[cal]
+			if t == nil || t.Pkg != p {
+				continue
+			}
+			for _, il := range iterLoopsIn(t.Pkg.TypesInfo, t.Decl.Body) {
+				if isMiddlewaresColl(t.Pkg.TypesInfo, t, il) {
+					mwLoop, mwLoopInfo, mwHelper, mwHelperCall = il, t.Pkg.TypesInfo, t, c
+				}
+			}
+		}
+	}
+	if mwLoop != nil && mwHelper == nil {
+		f.mwElem = mwLoop.Elem
+	}
 	isMW := func(c *ast.CallExpr) bool {
-		id, ok := unparen(c.Fun).(*ast.Ident)
-		return ok && f.mwElem != nil && info.Uses[id] == f.mwElem
+		if mwHelperCall != nil && c == mwHelperCall {
+			return true
+		}
+		return mwLoop != nil && mwHelper == nil && mwLoop.IsElem(c.Fun) && isInside(c, mwLoop.Body)
 	}
 	isNext := func(c *ast.CallExpr) bool {
 		if isMW(c) {
@@ -288,16 +329,14 @@ func checkScopeMiddleware(w *World, r *Report, m string, p *packages.Package) {
 			f.nextCalls = append(f.nextCalls, c)
 		}
 	}
-	if f.mwRange != nil {
-		ast.Inspect(f.mwRange.Body, func(x ast.Node) bool {
-			if as, ok := x.(*ast.AssignStmt); ok && len(as.Rhs) == 1 {
-				if c, ok := unparen(as.Rhs[0]).(*ast.CallExpr); ok && isMW(c) && len(as.Lhs) == 1 {
-					f.mwErr = objOf(info, as.Lhs[0])
-				}
+	ast.Inspect(body, func(x ast.Node) bool {
+		if as, ok := x.(*ast.AssignStmt); ok && len(as.Rhs) == 1 {
+			if c, ok := unparen(as.Rhs[0]).(*ast.CallExpr); ok && isMW(c) && len(as.Lhs) == 1 {
+				f.mwErr = objOf(info, as.Lhs[0])
 			}
-			return true
-		})
-	}
+		}
+		return true
+	})
 	gen := func(n ast.Node) (out []string) {
 		switch s := n.(type) {
 		case *ast.DeferStmt:
@@ -453,28 +492,89 @@ func checkScopeMiddleware(w *World, r *Report, m string, p *packages.Package) {
 	}
 	// ---- P5
 	{
-		if f.mwRange == nil || f.mwElem == nil {
-			r.Fail("P5", pre+"#mw-loop", f.lit.Pos(), "no forward range over cfg.Middlewares")
+		if mwLoop == nil {
+			r.Fail("P5", pre+"#mw-loop", f.lit.Pos(), "no forward loop over cfg.Middlewares in the request function or a private function it calls")
 		} else {
 			bad := ""
-			if f.mwRange.Key != nil {
-				if id, ok := f.mwRange.Key.(*ast.Ident); !ok || id.Name != "_" {
-					bad = "" // index form is still in order
+			if mwLoop.Dir != "fwd" {
+				bad = "the configured middlewares are not traversed front to back (" + mwLoop.Dir + " " + mwLoop.DirWhy + ")"
+			}
+			// which value is the scope inside the function holding the loop
+			var scopeThere types.Object = f.scope
+			if mwHelper != nil {
+				scopeThere = nil
+				var params []types.Object
+				for _, fl2 := range mwHelper.Decl.Type.Params.List {
+					for _, nm := range fl2.Names {
+						params = append(params, mwLoopInfo.Defs[nm])
+					}
+				}
+				for i, a := range mwHelperCall.Args {
+					if objOf(info, a) == f.scope && i < len(params) {
+						scopeThere = params[i]
+					}
+				}
+				if scopeThere == nil {
+					bad = "the request's scope is not passed to " + mwHelper.Name()
 				}
 			}
 			nCalls := 0
-			for _, c := range callsIn(f.mwRange.Body, false) {
-				if isMW(c) {
-					nCalls++
-					if len(c.Args) < 1 || objOf(info, c.Args[0]) != f.scope {
-						bad = "the middleware is called with " + exprStr(c.Args[0]) + ", not with the request's scope"
-					}
+			var mwErrThere types.Object
+			for _, c := range callsIn(mwLoop.Body, false) {
+				if !mwLoop.IsElem(c.Fun) {
+					continue
+				}
+				nCalls++
+				if len(c.Args) < 1 || objOf(mwLoopInfo, c.Args[0]) != scopeThere {
+					bad = "the middleware is called with " + exprStr(c.Args[0]) + ", not with the request's scope"
 				}
 			}
 			if nCalls != 1 {
 				bad = fmt.Sprintf("each configured middleware is called %d times per request", nCalls)
 			}
-			r.Check(bad == "", "P5", pre+"#mw-loop", f.mwRange.Pos(), true, "forward range over cfg.Middlewares, each called once with the request's scope", bad)
+			if mwHelper != nil && bad == "" {
+				// the helper must fail closed: on a middleware error it returns that very error, otherwise nil
+				ast.Inspect(mwLoop.Body, func(x ast.Node) bool {
+					if as, ok := x.(*ast.AssignStmt); ok && len(as.Rhs) == 1 && len(as.Lhs) == 1 {
+						if c, ok := unparen(as.Rhs[0]).(*ast.CallExpr); ok {
+							if mwLoop.IsElem(c.Fun) {
+								mwErrThere = objOf(mwLoopInfo, as.Lhs[0])
+							}
+						}
+					}
+					return true
+				})
+				hfl := w.FlowOf(mwHelper)
+				hsol := hfl.Solve(Spec{Must: true, Edge: condEdge(w, mwLoopInfo, 1)})
+				sawErrReturn := false
+				for _, ex := range hfl.Exits() {
+					if ex.Ret == nil || len(ex.Ret.Results) != 1 {
+						bad = mwHelper.Name() + " does not return a single error"
+						continue
+					}
+					res := ex.Ret.Results[0]
+					at := hsol.AtExit(ex)
+					failed := mwErrThere != nil && at.Has(mwErrThere.Name()+"=nonnil")
+					switch {
+					case failed && objOf(mwLoopInfo, res) == mwErrThere:
+						sawErrReturn = true
+					case failed:
+						bad = mwHelper.Name() + " returns " + exprStr(res) + " after a middleware failed, not the middleware's own error: a nil result lets the request continue to the handler"
+					case !isNilIdent(mwLoopInfo, res):
+						bad = mwHelper.Name() + " returns " + exprStr(res) + " on a path where no middleware failed"
+					}
+				}
+				if !sawErrReturn && bad == "" {
+					bad = mwHelper.Name() + " does not stop at the first failing middleware"
+				}
+				inspectNoLit(mwLoop.Body, func(m ast.Node) bool {
+					if b, ok := m.(*ast.BranchStmt); ok && (b.Tok == token.CONTINUE || b.Tok == token.BREAK) {
+						bad = b.Tok.String() + " in the middleware loop"
+					}
+					return true
+				})
+			}
+			r.Check(bad == "", "P5", pre+"#mw-loop", mwLoop.Stmt.Pos(), true, "front-to-back traversal of cfg.Middlewares, each called once with the request's scope", bad)
 			bad = ""
 			n := 0
 			for _, ex := range fl.Exits() {
@@ -500,7 +600,7 @@ func checkScopeMiddleware(w *World, r *Report, m string, p *packages.Package) {
 			if n == 0 && bad == "" {
 				bad = "a middleware error does not end the request function (no return on the error edge)"
 			}
-			r.Check(bad == "", "P5", pre+"#mw-error", f.mwRange.Pos(), true, "middleware error: error handler, return; the next handler is unreachable", bad)
+			r.Check(bad == "", "P5", pre+"#mw-error", mwLoop.Stmt.Pos(), true, "middleware error: error handler, return; the next handler is unreachable", bad)
 		}
 	}
 	// ---- P6
@@ -726,6 +826,36 @@ func checkHandle(w *World, r *Report, m string, p *packages.Package) {
 		return ok && method != nil && info.Uses[id] == method
 	}
 	lit := innermostLitWith(fi, isMethod)
+	var helper *FuncInfo
+	if lit == nil {
+		// the resolution steps may live in a private (generic) function that receives the method
+		for _, l := range funcLitsIn(fi.Decl.Body) {
+			for _, c := range callsIn(l.Body, false) {
+				cal := callee(info, c)
+				if cal == nil {
+					continue
+				}
+				if o := cal.Origin(); o != nil {
+					cal = o
+				}
+				t := w.Decls[cal]
+				if t == nil || t.Pkg != p || cal.Exported() {
+					continue
+				}
+				var ps []types.Object
+				for _, fl2 := range t.Decl.Type.Params.List {
+					for _, nm := range fl2.Names {
+						ps = append(ps, info.Defs[nm])
+					}
+				}
+				for i, a := range c.Args {
+					if objOf(info, a) == method && i < len(ps) {
+						lit, helper, method = l, t, ps[i]
+					}
+				}
+			}
+		}
+	}
 	if lit == nil {
 		r.Fail("H4", pre+"#method", fi.Decl.Pos(), "Handle never calls the controller method")
 		return
@@ -736,7 +866,18 @@ func checkHandle(w *World, r *Report, m string, p *packages.Package) {
 			params[info.Defs[nm]] = true
 		}
 	}
+	recoverBody := lit.Body
 	body := lit.Body
+	if helper != nil {
+		body = helper.Decl.Body
+		params = map[types.Object]bool{}
+		for _, fl := range helper.Decl.Type.Params.List {
+			for _, nm := range fl.Names {
+				params[info.Defs[nm]] = true
+			}
+		}
+		r.Analysed(helper)
+	}
 	// H1: recover only under cfg.PanicRecovery
 	{
 		bad := ""
@@ -767,7 +908,7 @@ func checkHandle(w *World, r *Report, m string, p *packages.Package) {
 				}
 			}
 		}
-		walk(body.List, false)
+		walk(recoverBody.List, false)
 		if n == 0 {
 			bad = "Handle never recovers, even when PanicRecovery is enabled"
 		}
